@@ -28,3 +28,31 @@ reg("C27", "rv-math", "exploration", "differential monitoring against independen
 reg("C29", "rv-math", "exploration", "differential monitoring against independent calendar oracle",
     "Instant↔UtcDateTime conversions, UtcDateTime::new validity, add_* and ISO-8601 print/parse are executed on generated timestamps (whole supported range, range ends, civil boundaries, day boundaries; thorough: every second of 16 selected years) and compared with Hinnant's civil-from-days algorithms in i128; from_str on hostile text under catch_unwind.",
     _PURE_NOTE, "DESIGN.md §4 C29")
+
+reg("C16", "rv-ident", "exploration", "round-trip / injectivity / order monitors on generated key sets",
+    "SpreadPrefixKeyMapper is run on generated sets of node, partition, field, map and sorted keys built with adversarial near-collisions (prefix/suffix relatives, 0x00/0xFF runs, keys shaped like other keys' database form, sizes 0..4136): round trip through typed and generic functions, per-kind injectivity by sort + adjacent compare, sorted-prefix order on boundary prefixes.",
+    _PURE_NOTE + " Injectivity is demanded per key kind (a partition holds one kind).", "DESIGN.md §4 C16")
+reg("C28", "rv-ident", "exploration", "differential monitoring against independent Bech32m / id grammars",
+    "Address encode/decode over 28 network definitions (22 custom near-colliding HRP suffixes) x every entity byte against an independent BIP-173/350 reference; typed addresses accept exactly their entity class; every other network rejects; crafted valid-checksum texts rejected; non-fungible local/global ids judged by an independent grammar through value, text, SBOR and byte forms; parsing under catch_unwind.",
+    _PURE_NOTE, "DESIGN.md §4 C28")
+reg("C37", "rv-ident", "exploration", "exhaustive-universe evaluation of constraint meaning",
+    "Every generated ManifestResourceConstraint / GeneralResourceConstraint is evaluated on all 128 subsets of a 7-id universe (x foreign ids) and on a boundary grid of fungible amounts against the mathematical meaning computed with BigInt and bit masks; normalize() must not change the accepted set; a constraint declared valid must have a witness balance that is accepted.",
+    _PURE_NOTE + " The engine-side half (worktop assertions in executed manifests) is covered by the C09 check.", "DESIGN.md §4 C37")
+reg("C48", "rv-ident", "exploration", "sign/verify/mutate monitors on the real crypto libraries",
+    "For generated keys and messages: sign -> verify, secp256k1 recovery -> signer, every position of signature and key and up to 48 message positions mutated (bit flips, random masks, all 255 masks on sampled positions and on the recovery-id byte) must fail verification; BLS aggregate / fast-aggregate verification against 15+ valid and invalid compositions; small-order Ed25519 points and BLS infinity key probes.",
+    _PURE_NOTE + " Adversarially cancelling pairs of invalid BLS components are not constructed.", "DESIGN.md §4 C48")
+
+_LEDGER_NOTE = "Trusted: the SBOR substate types + database key mapper used to decode raw substates, num-bigint, the harness. Observes only the executions of the seeded workload (single process/architecture); all global monitors (C02,C03,C04,C05,C06,C11,C43,C44,C49,C51) are armed in every ledger run."
+_MIX = "Long seeded ledger histories of mixed transactions (mint/burn/transfer/recall/freeze/NF mint+burn+data update/metadata/failing transactions/fee-lock variants/round+epoch changes, adversarial amounts) are executed on the real engine; "
+reg("C03", "rv-engine", "exploration", "conservation monitor over raw pre/post substates and receipt events",
+    _MIX + "for every committed transaction the sum of vault balance changes per resource (read from the raw pre- and post-state substates), the total-supply field change and the non-fungible id sets are compared with minted minus burned taken from the receipt's events (BigInt).",
+    _LEDGER_NOTE, "DESIGN.md §4 C03")
+reg("C04", "rv-engine", "exploration", "whole-database walker + full event replay oracle",
+    _MIX + "every N commits and at the end an own walker sums all vaults per resource, compares with recorded supplies, checks non-negative balances and NF vault counts, and replays every event emitted since genesis to recompute all vault balances and supplies; per transaction each vault's balance change must equal the replay of its own events. The repository's resource checker/reconciler runs as a second opinion.",
+    _LEDGER_NOTE, "DESIGN.md §4 C04")
+reg("C05", "rv-engine", "exploration", "whole-database well-formedness walker",
+    _MIX + "every N commits and at the end an own walker checks single ownership of every internal node, global-only references, presence of state/type info for every owned or referenced entity and consistency of the entity-type byte with the stored blueprint; schema conformance and role-assignment validity are checked by running the repository's SystemDatabaseChecker + RoleAssignmentDatabaseChecker on the same states.",
+    _LEDGER_NOTE + " Schema conformance clause trusts sbor payload validation (monitored separately by C22).", "DESIGN.md §4 C05")
+reg("C02", "rv-engine", "fault_enumeration", "fault-injection sweep + failure-shape allow-list monitor",
+    "For each generated manifest on an aged ledger the number n of injectable system-callback steps is learned, then the manifest is re-executed from the same snapshot with a system error injected at every step 1..=n (or 250 spread points when n > 300); each commit-failure receipt's raw state diff and events are classified against the allow-list of the property (fee vault balances by exactly -payment, validator reward bookkeeping, replay-protection record, fee events only) and the whole-database walkers run on sampled post-failure states. Natural failures of the workload are classified the same way in every ledger run.",
+    _LEDGER_NOTE + " Injected error kind is the costing error of scrypto-test's injector.", "DESIGN.md §4 C02")
